@@ -144,6 +144,9 @@ pub struct HScript {
     pub ret: Ret,
     /// `CliHandle::set_prompt` is called before the writer calls instead of after them
     pub prompt_first: bool,
+    /// an additional `CliHandle::set_prompt(PROMPTS[i])` made first of all (so that a handler
+    /// can set the prompt twice, e.g. "busy" while working and back afterwards)
+    pub pre_prompt: Option<usize>,
 }
 
 impl Default for HScript {
@@ -153,6 +156,7 @@ impl Default for HScript {
             prompt: None,
             ret: Ret::Parse,
             prompt_first: false,
+            pre_prompt: None,
         }
     }
 }
@@ -364,10 +368,11 @@ impl Trace {
                 Ev::Handler(h) => {
                     let _ = write!(
                         s,
-                        "handler ret={} prompt={}{}",
+                        "handler ret={} prompt={}{}{}",
                         ret_tag(h.ret),
                         h.prompt.map(|p| p.to_string()).unwrap_or_else(|| "-".into()),
-                        if h.prompt_first { " pfirst=1" } else { "" }
+                        if h.prompt_first { " pfirst=1" } else { "" },
+                        h.pre_prompt.map(|p| format!(" pprompt={p}")).unwrap_or_default()
                     );
                     calls_to_text(&h.calls, &mut s);
                     s.push('\n');
@@ -492,6 +497,12 @@ impl Trace {
                             h.ret = parse_ret(v).map_err(err)?;
                         } else if let Some(v) = kv(t, "pfirst") {
                             h.prompt_first = v == "1";
+                        } else if let Some(v) = kv(t, "pprompt") {
+                            let i: usize = v.parse().map_err(|_| err(format!("bad {t}")))?;
+                            if i >= PROMPTS.len() {
+                                return Err(err("prompt index out of range".into()));
+                            }
+                            h.pre_prompt = Some(i);
                         } else if let Some(v) = kv(t, "prompt") {
                             h.prompt = if v == "-" {
                                 None
